@@ -516,3 +516,7 @@ Definition c12_ok (ins : instance) (a : asg) : bool :=
 (* the statement without the exemption (planned in DESIGN.md §5 C12): refuted for Z3 *)
 Definition c12_strict_ok (ins : instance) (a : asg) : bool :=
   negb (i_enforce ins) || forallb (fun t => implb (truth a (VPlaced (zt_id t))) (meets_deadline a t)) (i_tasks ins).
+(* the returned optimum is no worse on the soft rows than other feasible points (checks, on observations,
+   the order in which z3.Optimize treats its objectives) *)
+Definition soft_opt_ok (ins : instance) (opt : asg) (others : list asg) : bool :=
+  forallb (fun b => soft_penalty ins opt <=? soft_penalty ins b) others.
